@@ -1163,6 +1163,37 @@ def r7_apply(src, log, map_kind="result", path_map_kind="result", map_or_kind="o
                     log.setdefault("R7.fired", []).append("ok")
                     changed = True
                     break
+                if meth == "map_or_else":
+                    # Option::map_or_else(|| D, |p| B)  ->  (match X { Some(p) => B, None => D })   (Result: Ok(p) / Err(e) with |e| D)
+                    o2 = s[k + 2]; c2 = m[o2]; ck2 = s.index(c2)
+                    cl_ = _closure_spans(toks, s, m, k + 2, ck2)
+                    if len(cl_) != 2:
+                        continue
+                    (a1, a2, as_, ae), (b1, b2, bs_, be) = cl_
+                    dpar = src[toks[s[a1]].end:toks[s[a2]].start].strip()
+                    dbody = src[toks[s[as_]].start:toks[s[ae]].end]
+                    bpar = src[toks[s[b1]].end:toks[s[b2]].start].strip()
+                    bbody = src[toks[s[bs_]].start:toks[s[be]].end]
+                    j = k - 1
+                    while j >= 0:
+                        if toks[s[j]].text == ")":
+                            j = s.index(m[s[j]]) - 1
+                            continue
+                        if toks[s[j]].kind == "ident" or toks[s[j]].text == ".":
+                            j -= 1
+                            continue
+                        break
+                    r0 = j + 1
+                    recv = src[toks[s[r0]].start:t.start].strip()
+                    if map_or_kind == "result" or dpar:
+                        rep = "(match %s { Ok(%s) => %s, Err(%s) => %s })" % (recv, bpar, bbody, dpar or "_", dbody)
+                    else:
+                        rep = "(match %s { Some(%s) => %s, None => %s })" % (recv, bpar, bbody, dbody)
+                    src = _replace(src, [(toks[s[r0]].start, toks[c2].end, rep)])
+                    log["R7"] = log.get("R7", 0) + 1
+                    log.setdefault("R7.fired", []).append("map_or_else")
+                    changed = True
+                    break
                 if meth == "map_or":
                     # Option::map_or(default, path):  (match X { Some(v) => path(v), None => default })
                     o2 = s[k + 2]; c2 = m[o2]
@@ -1514,7 +1545,16 @@ def r28_flat_find(src, log):
     return src
 
 
+def r29_text_literals(src, log):
+    """R29: `BytesText::new("lit")` -> `BytesText::new(&lit("lit"))`: a string literal written as element text is tracked as
+    TextVal::Lit (the shim BytesText::new takes the tracked string type)."""
+    new, n = re.subn(r'BytesText::new\(\s*("(?:[^"\\]|\\.)*")\s*\)', r'BytesText::new(&lit(\1))', src)
+    log["R29"] = log.get("R29", 0) + n
+    return new
+
+
 RULES = {
+    "R29": r29_text_literals,
     "R28": r28_flat_find,
     "R26": r26_spawn, "R27": r27_block_in_place,
     "R25": r25_map_collect,
@@ -1868,6 +1908,26 @@ def _gen_function(kv, sections, repo, res: UnitResult, variant) -> list:
         body = body.replace(x, y)
         log.setdefault("SUB", []).append(pair)
 
+    # contret=1: the extracted block is one arm of a loop body; a `continue;` in it (not inside a nested loop) ends the arm just as
+    # falling off its end does, so it becomes `return;` and the arm's contract covers both ways out
+    if kv.get("contret"):
+        btoks_ = lex(body); bm_ = match_brackets(btoks_)
+        sig_ = [ix for ix, t in enumerate(btoks_) if t.kind not in ("ws", "comment")]
+        nested = []
+        for q, ix in enumerate(sig_):
+            t = btoks_[ix]
+            if t.kind == "ident" and t.text in ("loop", "while", "for"):
+                ob = next((jx for jx in sig_[q + 1:] if btoks_[jx].text == "{"), None)
+                if ob is not None:
+                    nested.append((btoks_[ob].start, btoks_[bm_[ob]].end))
+        edits_ = []
+        for ix in sig_:
+            t = btoks_[ix]
+            if t.kind == "ident" and t.text == "continue" and not any(a_ <= t.start < b_ for a_, b_ in nested):
+                edits_.append((t.start, t.end, "return"))
+        if edits_:
+            body = _replace(body, edits_)
+            log["contret"] = len(edits_)
     # opaque=/let x = /=>CALL : the initializer expression of the `let` statement the regex matches (from the end of the match
     # to the `;` that closes the statement) is replaced by CALL - an external shim; what is dropped is exactly that expression
     for pair in [p for p in kv.get("opaque", "").split(";;") if p]:
